@@ -47,17 +47,19 @@ func TestVerif_C14_params(t *testing.T) {
 		}
 		w, desc := verifc14.CompressP(r, alg, p, maxLog)
 		kind := "valid"
+		lastStart := 0 // where the last gzip member starts: a cut AT a member boundary is a valid, shorter stream
 		if alg == "gzip" && r.Intn(4) == 0 {
 			for k := 1 + r.Intn(2); k > 0; k-- {
 				p2 := verifc14.Payload(r, r.Intn(4))
 				w2, d2 := verifc14.CompressP(r, "gzip", p2, maxLog)
+				lastStart = len(w)
 				p, w, desc = append(append([]byte(nil), p...), p2...), append(append([]byte(nil), w...), w2...), desc+" + "+d2
 			}
 			kind = "multi"
 		}
-		if r.Intn(6) == 0 && len(w) >= 2 {
-			kind = "trunc"
-			w = w[:1+r.Intn(len(w)-1)]
+		if r.Intn(6) == 0 && len(w)-lastStart >= 2 {
+			kind = "trunc" // strictly inside the (last) member / frame
+			w = w[:lastStart+1+r.Intn(len(w)-lastStart-1)]
 		}
 		cases = append(cases, pcase{alg: alg, kind: kind, desc: desc, payload: p, wire: w})
 	}
